@@ -151,6 +151,9 @@ func (w *World) attrValue(name string) *J {
 	case "email":
 		return JStr(w.r.Pick([]string{"alice@x.com", "bob@y.org", "x.com", "a"}))
 	case "age":
+		if w.r.P(0.1) {
+			return JNum([]float64{0, math.Copysign(0, -1)}[w.r.Intn(2)])
+		}
 		return JNum(numPool[w.r.Intn(len(numPool))])
 	case "tags":
 		a := &J{K: 'a', A: []*J{}}
@@ -274,6 +277,14 @@ func (w *World) ctxValueFor(kind, attr string, path bool) *J {
 	return FromLdvalue(v)
 }
 
+// sign carrier of the context's (zero) value for an attribute: +0 or -0
+func (w *World) ctxZeroSign(kind, attr string, path bool) float64 {
+	if v := w.ctxValueFor(kind, attr, path); v != nil && v.K == 'd' {
+		return v.N
+	}
+	return 0
+}
+
 func (w *World) genClause(segOK bool) *J {
 	r, p := w.r, w.p
 	c := JObj()
@@ -377,6 +388,12 @@ func (w *World) genClause(segOK bool) *J {
 			}
 			if !utf8.ValidString(v.S) { // never cut inside a multi-byte character: JSON text must be valid UTF-8
 				v = JStr(s)
+			}
+		} else if v.K == 'd' && v.N == 0 && r.P(0.6) {
+			// the other zero: numerically equal, different bit pattern
+			v = JNum(math.Copysign(0, -1))
+			if math.Signbit(v.N) == math.Signbit(w.ctxZeroSign(effKind, attr, path)) {
+				v = JNum(0)
 			}
 		} else if v.K == 'd' && r.P(0.5) {
 			v = JNum(v.N + []float64{-1, 0, 1, 0.5}[r.Intn(4)])
